@@ -150,13 +150,24 @@ struct vconf_ghost {
  * ====================================================================================== */
 #define VLOW(c) (((int) (((c) >= 'A' && (c) <= 'Z') ? (c) + 32 : (c))) & 0xff)
 #define VRAW(c) (((int) (c)) & 0xff)
+/* the first nine bytes of both strings, each read once and only while no NUL was seen */
+#define VCMP_LOAD \
+    char a0 = a[0], b0 = b[0]; \
+    char a1 = a0 ? a[1] : 0, b1 = b0 ? b[1] : 0; \
+    char a2 = a1 ? a[2] : 0, b2 = b1 ? b[2] : 0; \
+    char a3 = a2 ? a[3] : 0, b3 = b2 ? b[3] : 0; \
+    char a4 = a3 ? a[4] : 0, b4 = b3 ? b[4] : 0; \
+    char a5 = a4 ? a[5] : 0, b5 = b4 ? b[5] : 0; \
+    char a6 = a5 ? a[6] : 0, b6 = b5 ? b[6] : 0; \
+    char a7 = a6 ? a[7] : 0, b7 = b6 ? b[7] : 0; \
+    char a8 = a7 ? a[8] : 0, b8 = b7 ? b[8] : 0;
 #define VCMP_STEP(i, F) \
-    if (n <= (i)) return 0; \
-    { int ca = F(a[i]), cb = F(b[i]); if (ca != cb) return ca - cb; if (ca == 0) return 0; }
+    if (n <= (i)) return VCMP_REC(0); \
+    { int ca = F(a##i), cb = F(b##i); if (ca != cb) return VCMP_REC(ca - cb); if (ca == 0) return VCMP_REC(0); }
 #define VCMP_BODY(F) \
     VCMP_STEP(0, F) VCMP_STEP(1, F) VCMP_STEP(2, F) VCMP_STEP(3, F) VCMP_STEP(4, F) \
     VCMP_STEP(5, F) VCMP_STEP(6, F) VCMP_STEP(7, F) VCMP_STEP(8, F)
-
+#define VCMP_REC(r) (r)
 
 static int v_cmp_tail(void) { int r = nondet_int(); return r; }
 
@@ -164,10 +175,12 @@ int strncasecmp(const char *a, const char *b, size_t n)
 {
     __CPROVER_assert(n == 0 || (a != NULL && b != NULL), "strncasecmp: arguments not NULL");
     __CPROVER_assert(n == 0 || (__CPROVER_r_ok(a, 1) && __CPROVER_r_ok(b, 1)), "strncasecmp: arguments readable");
+    if (n == 0) return 0;
+    VCMP_LOAD
     /* ghost: the directive word "preproc " was matched (C11 spawn freedom) */
-    if (n == 8 && b[0] == 'p' && b[1] == 'r' && b[2] == 'e' && b[3] == 'p' && b[4] == 'r' && b[5] == 'o' && b[6] == 'c' && b[7] == ' '
-        && VLOW(a[0]) == 'p' && VLOW(a[1]) == 'r' && VLOW(a[2]) == 'e' && VLOW(a[3]) == 'p' && VLOW(a[4]) == 'r'
-        && VLOW(a[5]) == 'o' && VLOW(a[6]) == 'c' && a[7] == ' ') {
+    if (n == 8 && b0 == 'p' && b1 == 'r' && b2 == 'e' && b3 == 'p' && b4 == 'r' && b5 == 'o' && b6 == 'c' && b7 == ' '
+        && VLOW(a0) == 'p' && VLOW(a1) == 'r' && VLOW(a2) == 'e' && VLOW(a3) == 'p' && VLOW(a4) == 'r'
+        && VLOW(a5) == 'o' && VLOW(a6) == 'c' && a7 == ' ') {
         vg_saw_preproc++;
     }
     VCMP_BODY(VLOW)
@@ -177,31 +190,33 @@ int strncmp(const char *a, const char *b, size_t n)
 {
     __CPROVER_assert(n == 0 || (a != NULL && b != NULL), "strncmp: arguments not NULL");
     __CPROVER_assert(n == 0 || (__CPROVER_r_ok(a, 1) && __CPROVER_r_ok(b, 1)), "strncmp: arguments readable");
+    if (n == 0) return 0;
+    VCMP_LOAD
     VCMP_BODY(VRAW)
     return v_cmp_tail();
-}
-int strcasecmp(const char *a, const char *b)
-{
-    __CPROVER_assert(a != NULL && b != NULL, "strcasecmp: arguments not NULL");
-    __CPROVER_assert(__CPROVER_r_ok(a, 1) && __CPROVER_r_ok(b, 1), "strcasecmp: arguments readable");
-#define VCMP_REC(r) (vg_cmp_last = (r))
-#undef  VCMP_STEP
-#define VCMP_STEP(i, F) \
-    { int ca = F(a[i]), cb = F(b[i]); if (ca != cb) return VCMP_REC(ca - cb); if (ca == 0) return VCMP_REC(0); }
-    VCMP_BODY(VLOW)
-    return VCMP_REC(v_cmp_tail());
 }
 int strcmp(const char *a, const char *b)
 {
+    size_t n = 9;
     __CPROVER_assert(a != NULL && b != NULL, "strcmp: arguments not NULL");
     __CPROVER_assert(__CPROVER_r_ok(a, 1) && __CPROVER_r_ok(b, 1), "strcmp: arguments readable");
-#undef  VCMP_REC
-#define VCMP_REC(r) (r)
+    VCMP_LOAD
     VCMP_BODY(VRAW)
     return v_cmp_tail();
 }
-#undef VCMP_STEP
+#undef  VCMP_REC
+#define VCMP_REC(r) (vg_cmp_last = (r))
+int strcasecmp(const char *a, const char *b)
+{
+    size_t n = 9;
+    __CPROVER_assert(a != NULL && b != NULL, "strcasecmp: arguments not NULL");
+    __CPROVER_assert(__CPROVER_r_ok(a, 1) && __CPROVER_r_ok(b, 1), "strcasecmp: arguments readable");
+    VCMP_LOAD
+    VCMP_BODY(VLOW)
+    return VCMP_REC(v_cmp_tail());
+}
 #undef VCMP_REC
+#undef VCMP_STEP
 
 /* ======================================================================================
  * 3. search family (replaces env.h's: units define VERIF_OWN_STRCHR)
